@@ -693,6 +693,9 @@ func init() {
 	const pj = "google.golang.org/protobuf/encoding/protojson"
 	const pp = "google.golang.org/protobuf/proto"
 	reg(pj+".Marshal", func(e *Engine, fn *ssa.Function, a []Value, s ssa.Instruction) Value {
+		if ifc, ok := a[0].(Iface); ok && ifc.T == nil {
+			return Tuple{JBytes{J: jObj()}, Iface{}} // protojson.Marshal(nil) is "{}"
+		}
 		cell, st, _ := e.messageArg(a[0], s)
 		return Tuple{JBytes{J: e.marshalJSON(cell, st, s)}, Iface{}}
 	})
@@ -720,6 +723,9 @@ func init() {
 		return unmarshalJ(e, a[1], a[2], s)
 	})
 	reg(pp+".Marshal", func(e *Engine, fn *ssa.Function, a []Value, s ssa.Instruction) Value {
+		if ifc, ok := a[0].(Iface); ok && ifc.T == nil {
+			return Tuple{Slice(nil), Iface{}} // proto.Marshal(nil) is empty
+		}
 		cell, _, T := e.messageArg(a[0], s)
 		return Tuple{MBytes{Enc: "proto", T: T, Snap: deepCopy(*cell)}, Iface{}}
 	})
